@@ -182,7 +182,17 @@ class SimFile:
 
     def read(self, n=-1):
         if n is not None and n >= 0:
-            raise FSHarnessError('sized read() is not modelled')
+            # sized read: RollLog only uses it to probe backwards for a record boundary in seek(); a file-system operation
+            # like any other, but not a delivery, so it does not enter the read log
+            self._check()
+            if not self.readable_:
+                raise OSError('not readable')
+            self.fs._op('read', self.path, self.proc)
+            if self.dead:
+                raise SimCrash
+            out = bytes(self.inode.data[self.pos:self.pos + n])
+            self.pos += len(out)
+            return out.decode() if self.text else out
         out = self._read_raw(False)
         return out.decode() if self.text else out
 
